@@ -9,6 +9,11 @@ import (
 	"strconv"
 	"strings"
 	"time"
+
+	ucfg "github.com/elastic/go-ucfg"
+
+	"verif/internal/model"
+	"verif/internal/obs"
 )
 
 var mapKeys = []string{"ka", "kb", "kc", "kd", "ke"}
@@ -26,7 +31,8 @@ type cval struct {
 	fields map[*field]*cval // object addressed to a struct
 	list   []*cval          // list
 	keys   map[string]*cval // object addressed to a map
-	form   string           // "prim", "fields", "list", "keys", "raw"
+	node   *model.Node      // tree addressed to a *Config field (never modified)
+	form   string           // "prim", "fields", "list", "keys", "raw", "node"
 }
 
 func (c *cval) absent() bool { return c == nil || c.null }
@@ -75,6 +81,8 @@ func (c *cval) toGo() interface{} {
 			m[k] = e.toGo()
 		}
 		return m
+	case c.form == "node":
+		return c.node.ToGo()
 	}
 	return c.raw
 }
@@ -138,6 +146,68 @@ func renderGo(v interface{}) string {
 
 type vgen struct {
 	r *rand.Rand
+	// cfgs: the tree every pre-filled *Config was built from, by pointer
+	cfgs map[uintptr]*model.Node
+}
+
+// ---------------------------------------------------------------------------
+// trees for *Config fields: small key pool (overlaps and type changes at the
+// same key are common), no nulls, no empty containers
+
+var cfgKeys = []string{"a", "b", "c", "d"}
+
+func (g *vgen) cfgPrim() *model.Node {
+	r := g.r
+	switch r.Intn(4) {
+	case 0:
+		return model.P(int64(r.Intn(50)))
+	case 1:
+		return model.P(r.Intn(2) == 0)
+	}
+	return model.P(word(r))
+}
+
+func (g *vgen) cfgList(depth int) *model.Node {
+	r := g.r
+	n := model.List()
+	dicts := depth > 0 && r.Intn(4) == 0
+	for i, c := 0, 1+r.Intn(4); i < c; i++ {
+		if dicts {
+			n.A = append(n.A, g.cfgDict(depth-1))
+		} else {
+			n.A = append(n.A, g.cfgPrim())
+		}
+	}
+	return n
+}
+
+func (g *vgen) cfgDict(depth int) *model.Node {
+	r := g.r
+	n := model.Dict()
+	for len(n.D) == 0 {
+		for _, k := range cfgKeys {
+			if r.Intn(2) == 0 {
+				continue
+			}
+			switch x := r.Intn(10); {
+			case x < 4 || depth <= 0 && (x < 6 || x >= 8):
+				n.D[k] = g.cfgPrim()
+			case x < 8:
+				n.D[k] = g.cfgList(depth - 1)
+			default:
+				n.D[k] = g.cfgDict(depth - 1)
+			}
+		}
+	}
+	return n
+}
+
+// cfgTree draws the contents of a *Config: an object (3 in 4) or a list.
+func (g *vgen) cfgTree(list bool) *model.Node {
+	if list {
+		return g.cfgList(1)
+	}
+	return g.cfgDict(2)
 }
 
 func intBounds(t reflect.Type) (int64, int64) {
@@ -384,6 +454,17 @@ func (g *vgen) fillField(f *field, v reflect.Value) {
 				v.Index(i).Set(g.prim(f.prim, hint{}))
 			}
 		}
+	case kConfig:
+		if !zero {
+			tree := g.cfgTree(r.Intn(4) == 0)
+			if c := newConfig(tree); c != nil {
+				pv := reflect.ValueOf(c)
+				if g.cfgs != nil {
+					g.cfgs[pv.Pointer()] = tree
+				}
+				v.Set(pv)
+			}
+		}
 	case kMapPrim, kMapPtrStruct, kMapStruct:
 		if zero && r.Intn(3) > 0 {
 			return // nil
@@ -528,6 +609,14 @@ func (g *vgen) cfgField(f *field, pre reflect.Value, stats *cfgStats) *cval {
 			c.list = append(c.list, g.cfgStruct(f.sub, e, true, &dummy))
 		}
 		return c
+	case kConfig:
+		stats.mentioned++
+		// same shape (object / list) as what the field already holds
+		list := r.Intn(4) == 0
+		if pre.IsValid() && !pre.IsNil() && g.cfgs[pre.Pointer()] != nil {
+			list = g.cfgs[pre.Pointer()].HasA
+		}
+		return &cval{form: "node", node: g.cfgTree(list)}
 	case kMapPrim, kMapPtrStruct, kMapStruct:
 		stats.mentioned++
 		c := &cval{form: "keys", keys: map[string]*cval{}}
@@ -565,6 +654,9 @@ func (g *vgen) cfgField(f *field, pre reflect.Value, stats *cfgStats) *cval {
 // pointer / map (to check that untouched reference fields keep their identity).
 type copier struct {
 	twin map[uintptr]uintptr // source pointer or map -> its copy
+	// cfgs: the trees the *Config values were built from; a *Config is copied
+	// by building a new one from its tree (without cfgs it is shared)
+	cfgs map[uintptr]*model.Node
 }
 
 func (c *copier) copy(v reflect.Value) reflect.Value {
@@ -572,6 +664,17 @@ func (c *copier) copy(v reflect.Value) reflect.Value {
 	case reflect.Ptr:
 		if v.IsNil() {
 			return reflect.Zero(v.Type())
+		}
+		if v.Type() == tConfigPtr {
+			tree := c.cfgs[v.Pointer()]
+			if tree == nil {
+				return v
+			}
+			n := reflect.ValueOf(newConfig(tree))
+			if c.twin != nil {
+				c.twin[v.Pointer()] = n.Pointer()
+			}
+			return n
 		}
 		n := reflect.New(v.Type().Elem())
 		n.Elem().Set(c.copy(v.Elem()))
@@ -640,6 +743,10 @@ func renderTo(b *strings.Builder, v reflect.Value) {
 			b.WriteString("nil")
 			return
 		}
+		if v.Type() == tConfigPtr {
+			b.WriteString("&Config(" + configCanon(v) + ")")
+			return
+		}
 		b.WriteByte('&')
 		renderTo(b, v.Elem())
 	case reflect.Struct:
@@ -700,6 +807,15 @@ func renderTo(b *strings.Builder, v reflect.Value) {
 	}
 }
 
+// configCanon observes the contents of a non-nil *Config ("dict|list").
+func configCanon(v reflect.Value) string {
+	s, err := obs.Top(v.Interface().(*ucfg.Config), ucfg.PathSep("."))
+	if err != nil {
+		return "unreadable:" + err.Error()
+	}
+	return s
+}
+
 // equal is a deep equality that also reads unexported fields. strict: nil and
 // empty slices / maps are different (used where a field must be untouched).
 func equal(a, b reflect.Value, strict bool) bool {
@@ -710,6 +826,10 @@ func equal(a, b reflect.Value, strict bool) bool {
 	case reflect.Ptr:
 		if a.IsNil() || b.IsNil() {
 			return a.IsNil() == b.IsNil()
+		}
+		if a.Type() == tConfigPtr {
+			ca, cb := configCanon(a), configCanon(b)
+			return ca == cb && !strings.HasPrefix(ca, "unreadable:")
 		}
 		return equal(a.Elem(), b.Elem(), strict)
 	case reflect.Struct:
